@@ -117,8 +117,15 @@ let dump_spec () =
      | Some h -> Printf.printf "CANON %s %s\n" (ocaml_string s.sp_name) (hex_of_buf h)
      | None -> Printf.printf "CANON %s NONE\n" (ocaml_string s.sp_name))) all_specs
 
+let dump_views () =
+  List.iteri (fun i g ->
+    Printf.printf "GROUP %d" i;
+    List.iter (fun (f, n) -> Printf.printf " %s:%s" (ocaml_string f) (ocaml_string n)) g;
+    print_newline ()) view_groups
+
 let () =
   if Array.length Sys.argv > 1 && Sys.argv.(1) = "--dump-spec" then (dump_spec (); exit 0);
+  if Array.length Sys.argv > 1 && Sys.argv.(1) = "--dump-views" then (dump_views (); exit 0);
   let ext = Driver_ext.handle in
   try
     while true do
